@@ -22,7 +22,7 @@ import numpy as np
 from harness.core import Ctx
 
 ID = "C04"
-LEAN_MODULES = ["GeoVerif.Props.C04", "GeoVerif.Props.C04Table"]
+LEAN_MODULES = ["GeoVerif.Props.C04", "GeoVerif.Props.C04Table", "GeoVerif.Props.C04Records"]
 THEOREMS = [
     "GeoVerif.Concat.tiled_empty",
     "GeoVerif.Concat.put_tiled",
@@ -50,11 +50,21 @@ THEOREMS = [
     "GeoVerif.Concat.step_tinv",
     "GeoVerif.Concat.run_tinv",
     "GeoVerif.Concat.table_after_history",
+    "GeoVerif.Records.upsert_inv",
+    "GeoVerif.Records.remove_inv",
+    "GeoVerif.Records.find_upsert_same",
+    "GeoVerif.Records.find_upsert_other",
+    "GeoVerif.Records.find_remove_same",
+    "GeoVerif.Records.find_remove_other",
+    "GeoVerif.Records.refines_map",
+    "GeoVerif.Records.records_exact",
 ]
 RULE = (
-    "random API histories on a DrillholeGroup (1-4 holes, data names from a pool of 4 shared between holes, "
-    "depth tables of length 1,2,3,7, values shorter than the table are padded; ops add/set/rename/remove via "
-    "workspace/remove via parent/remove hole/re-open; format versions 2.0 and 2.1); a case is one history, "
+    "random API histories on a DrillholeGroup (1-4 holes, depth-data names from a pool of 4 and interval-data names from a pool "
+    "of 2 shared between holes, tables of length 0,1,2,3,7, values shorter than the table are padded; ops add depth data/add "
+    "interval data/set/rename/remove via workspace/remove via parent/remove a whole property group/remove hole/copy the group/"
+    "re-open, and after every op the table view of every property group, whole and by an arbitrary selection and order of "
+    "names; format versions 2.0 and 2.1); a case is one history, "
     "distinct by the hash of its op list, non-trivial when at least one update_array_attribute call replaced or "
     "removed an existing slice (delete+shift path) and at least 2 holes share a label"
 )
@@ -66,7 +76,9 @@ ASSUMPTIONS = [
 TRUSTED_EXTRA = ["monkey-patched wrapper around Concatenator.update_array_attribute (installed by the harness, not in /repo)"]
 
 ZERO = uuid.UUID(int=0)
-NAMES = ["A", "B", "C", "D"]
+NAMES = ["A", "B", "C", "D"]          # depth data (property group depth_0)
+INAMES = ["I", "J"]                   # interval data (property group Interval_0)
+HIDDEN = ("DEPTH", "FROM", "TO")      # association data the library creates itself
 
 
 def tok(x):
@@ -154,18 +166,55 @@ class Tracer:
 
         self.C.update_array_attribute = wrapped
 
+        # attribute records (model M2c): every update_concatenated_attributes / remove_entity call with the key list and the
+        # identifiers of the records afterwards
+        def rec_state(conc):
+            keys = conc.attributes_keys
+            attrs = conc.concatenated_attributes
+            if keys is None or attrs is None:
+                return None, None
+            return ([tracer.num(k) for k in keys],
+                    [tracer.num(r["ID"]) if r.get("ID") else 0 for r in attrs["Attributes"]])
+
+        def upd(self, entity):
+            tracer.orig_upd(self, entity)
+            if not tracer.muted:
+                keys, ids = rec_state(self)
+                tracer.log.append({"rec": "upsert", "u": tracer.num(entity.uid), "keys": keys, "ids": ids})
+
+        def rem(self, entity):
+            u = tracer.num(entity.uid)
+            err = None
+            try:
+                tracer.orig_rem(self, entity)
+            except Exception as e:  # noqa: BLE001
+                err = e
+            if not tracer.muted:
+                keys, ids = rec_state(self)
+                tracer.log.append({"rec": "remove", "u": u, "keys": keys, "ids": ids, "err": type(err).__name__ if err else None})
+            if err:
+                raise err
+
+        self.orig_upd = self.C.update_concatenated_attributes
+        self.orig_rem = self.C.remove_entity
+        self.C.update_concatenated_attributes = upd
+        self.C.remove_entity = rem
+
     def uninstall(self):
         self.C.update_array_attribute = self.orig
+        self.C.update_concatenated_attributes = self.orig_upd
+        self.C.remove_entity = self.orig_rem
 
 
 def gen_history(rng, n_ops):
     """An abstract op list; interpreted against the live state (invalid picks are skipped)."""
     ops = [("add_hole",), ("add_hole",)]
     kinds = ["add_data"] * 10 + ["set"] * 8 + ["rm_ws"] * 3 + ["rm_parent"] * 3 + ["reopen"] * 2 + [
-        "add_hole", "rm_hole_ws", "rm_hole_parent", "copy_group", "copy_group"]
+        "add_hole", "rm_hole_ws", "rm_hole_parent", "copy_group", "copy_group"] + ["add_int"] * 5 + ["rm_pg"] * 2
     for _ in range(n_ops):
         k = rng.choice(kinds)
-        ops.append((k, rng.randrange(4), rng.choice(NAMES), rng.randrange(1 << 30)))
+        pool = INAMES if k == "add_int" or (k in ("set", "rm_ws", "rm_parent") and rng.random() < 0.3) else NAMES
+        ops.append((k, rng.randrange(4), rng.choice(pool), rng.randrange(1 << 30)))
     if rng.random() < 0.25:
         # renaming is a recorded finding whose after-effects (stale 'Property:<old>' keys) would
         # contaminate later operations: it is exercised as the last mutation of a history
@@ -204,7 +253,7 @@ def run_history(ctx: Ctx, tracer: Tracer, hist_id: int, version: float, ops, pat
     rng_vals = np.random.default_rng(hist_id)
     import random as _random
     rng_req = _random.Random(hist_id)
-    lines, expect = [{"m": "concat", "op": "reset"}], [None]
+    lines, expect = [{"m": "concat", "op": "reset"}, {"m": "records", "op": "reset"}], [None, None]
     ref: dict[str, dict[str, list]] = {}       # hole name -> data name -> tokens (the Spec)
     depth_len: dict[str, int] = {}
     renamed = False
@@ -216,6 +265,11 @@ def run_history(ctx: Ctx, tracer: Tracer, hist_id: int, version: float, ops, pat
     def flush_trace(tag):
         for ev in tracer.log:
             stats["prims"] += 1
+            if "rec" in ev:
+                lines.append({"m": "records", "op": ev["rec"], "u": ev["u"], "fields": []})
+                expect.append({"records": True, "keys": ev["keys"], "ids": ev["ids"], "tag": tag, "err": ev.get("err"), "u": ev["u"],
+                               "what": ev["rec"]})
+                continue
             if ev["remove"]:
                 line = {"m": "concat", "op": "drop", "label": ev["label"], "kd": ev["kd"],
                         "u": ev["d"] if ev["kd"] else ev["o"]}
@@ -235,7 +289,7 @@ def run_history(ctx: Ctx, tracer: Tracer, hist_id: int, version: float, ops, pat
             if h is None:
                 failures.append((f"hole {hname} not found {tag}", f"C04:{tag.split(':')[0]}:hole-lost"))
                 continue
-            got_list = sorted(n for n in h.get_data_list() if not n.upper().startswith("DEPTH"))
+            got_list = sorted(n for n in h.get_data_list() if not n.upper().startswith(HIDDEN))
             t_names = {n for (hh, n) in tainted if hh == hname}
             if t_names:
                 # a renamed data set keeps its old label on file (known finding): compare the rest
@@ -308,7 +362,8 @@ def run_history(ctx: Ctx, tracer: Tracer, hist_id: int, version: float, ops, pat
                     failures.append((f"attribute records not one-per-entity {ids} {tag}", "C04:records:duplicate-or-empty"))
                 n_holes = sum(1 for r in recs if "Object Type ID" in r)
                 n_data = sum(1 for r in recs if "Type ID" in r)
-                exp_data = sum(len(d) + (1 if d else 0) for d in ref.values())
+                exp_data = sum(len(d) + (1 if any(x[0] in NAMES for x in d) else 0) + (2 if any(x[0] in INAMES for x in d) else 0)
+                               for d in ref.values())      # a renamed data set keeps its first letter
                 if n_holes != len(ref) or n_data != exp_data:
                     failures.append((f"records: {n_holes} holes/{n_data} data, expected {len(ref)}/{exp_data} {tag}",
                                      "C04:records:count"))
@@ -343,7 +398,8 @@ def run_history(ctx: Ctx, tracer: Tracer, hist_id: int, version: float, ops, pat
                 try:
                     t = tb.depth_table if kind_ == "full" else tb.depth_table_by_name(tuple(names_), spatial_index=spatial)
                 except Exception as e:  # noqa: BLE001
-                    total = sum(depth_len[hh] for hh, dd in ref.items() if dd)
+                    own_ = INAMES if tname.startswith("Interval") else NAMES
+                    total = sum(depth_len[hh] for hh, dd in ref.items() if any(x in dd for x in own_))
                     sig = ("C04:table:raises:IndexError:table-without-rows" if isinstance(e, IndexError) and total == 0
                            else "C04:table:raises")
                     failures.append((f"table {tname} {kind_} {names_} raised {type(e).__name__}: {str(e)[:100]} {tag}", sig))
@@ -362,20 +418,23 @@ def run_history(ctx: Ctx, tracer: Tracer, hist_id: int, version: float, ops, pat
                               "ndv": [[c, "nan"] for c in cols]})
                 expect.append({"table": real, "spatial": spatial, "tag": tag, "req": [tname, kind_, cols]})
                 # --- oracle from the reference values (depth tables only: the reference knows their depths)
-                if assoc != ["DEPTH"]:
+                if assoc not in (["DEPTH"], ["FROM", "TO"]):
                     continue
+                own = NAMES if assoc == ["DEPTH"] else INAMES
                 exp_blocks = {}
                 for hname, datas in ref.items():
                     n = depth_len[hname]
-                    if not any(dn in datas for dn in NAMES) or n == 0:
+                    if not any(dn in datas for dn in own) or n == 0:
                         continue
                     hid = tracer.num(ws.get_entity(hname)[0].uid)
                     blk = []
                     for i in range(n):
                         row = []
                         for c in cols:
-                            if c == "DEPTH":
+                            if c == "DEPTH" or c == "TO":
                                 row.append(tok(float(i + 1)))
+                            elif c == "FROM":
+                                row.append(tok(float(i)))
                             else:
                                 row.append(datas[c][i] if c in datas else "nan")
                         blk.append(row)
@@ -453,6 +512,31 @@ def run_history(ctx: Ctx, tracer: Tracer, hist_id: int, version: float, ops, pat
                     if sum(1 for hh in ref.values() if dname in hh) > 1:
                         stats["shared"] = True
                     ctx.count("op:add_data")
+                elif kind == "add_int":
+                    n = depth_len[hname]
+                    if dname in ref[hname] or n == 0:
+                        return
+                    k = n if op[3] % 3 else max(1, n - 1)   # sometimes shorter: padded with nan
+                    vals = rng_vals.integers(-800, 800, size=k) / 8.0
+                    h.add_data({dname: {"from-to": np.c_[np.arange(n) * 1.0, np.arange(n) + 1.0], "values": vals}})
+                    ref[hname][dname] = toks(np.r_[vals, [np.nan] * (n - k)])
+                    if sum(1 for hh in ref.values() if dname in hh) > 1:
+                        stats["shared"] = True
+                    ctx.count("op:add_interval")
+                elif kind == "rm_pg":
+                    # a whole property group of one hole is removed through the workspace: every data set in it goes
+                    pgs_ = [x for x in (h.property_groups or [])]
+                    if not pgs_:
+                        return
+                    pg_ = pgs_[op[3] % len(pgs_)]
+                    pool_ = INAMES if pg_.name.startswith("Interval") else NAMES
+                    del pgs_
+                    ws.remove_entity(pg_)
+                    del pg_
+                    for x in pool_:
+                        ref[hname].pop(x, None)
+                    stats["replaced"] += 1
+                    ctx.count("op:rm_pg")
                 elif kind == "set":
                     if dname not in ref[hname]:
                         return
@@ -592,6 +676,19 @@ def compare(ctx: Ctx, cases):
                     ctx.fail(c["case"], f"raw file channel '{exp['raw_check']}' is not exactly tiled ({exp['tag']}): {exp['rows']}",
                              "C04:raw:not-tiled", observed=exp["rows"])
                 continue
+            if "records" in exp:
+                ctx.count("record_calls_compared_with_model")
+                if exp.get("err") or exp["keys"] is None:
+                    ctx.count("record_call_raised_or_no_list")
+                    continue
+                if not isinstance(out, dict) or out.get("keys") != exp["keys"] or out.get("ids") != exp["ids"]:
+                    ctx.disagree(c["case"], f"M2c correspondence: attribute records after {exp['what']} of {exp['u']} ({exp['tag']})",
+                                 model=out, impl={"keys": exp["keys"], "ids": exp["ids"]})
+                    stop = True
+                elif out.get("inv") is not True:
+                    ctx.fail(c["case"], f"attribute records are not one per identifier after {exp['what']} of {exp['u']} ({exp['tag']}): "
+                             f"keys {exp['keys']} ids {exp['ids']}", "C04:records:duplicate-or-empty", observed=exp)
+                continue
             if "table" in exp:
                 ctx.count("tables_compared_with_model")
                 model_rows = [[r["o"] if exp["spatial"] else 0, r["v"]] for r in out] if isinstance(out, list) else None
@@ -675,17 +772,28 @@ def replay(ctx: Ctx, payload):
 
 LEVEL_TEXT = (
     "Lean theorems (unbounded in holes, names, lengths and number of calls): the concatenated index/data arrays stay "
-    "exactly tiled under every update_array_attribute call (put_tiled/drop_tiled), a hole/data reads back exactly the "
-    "values last written (get_put_same), writes/removals never alter another identifier's values (get_put_other/"
-    "get_drop_other), and any call sequence refines a last-write-wins map (refines_map). The model is tied to the code "
-    "by replaying every real update_array_attribute call of random API histories on the model and comparing rows+data "
-    "after each call, by Lean's tiledCheck judging the raw file rows at every close, and by comparing API reads with the "
-    "abstract map. Partial: attribute-record bookkeeping, depth collocation and the table view are exercised by the "
-    "oracle only, not proved."
+    "exactly tiled under every update_array_attribute call (put_tiled/drop_tiled), in a tiled channel every array position "
+    "belongs to exactly one index row - no gap, overlap or duplicate (tiled_exact, tiled_no_overlap), a hole/data reads back "
+    "exactly the values last written (get_put_same), writes/removals never alter another identifier's values (get_put_other/"
+    "get_drop_other), and any call sequence refines a last-write-wins map (refines_map). Table view (model M2b of "
+    "DrillholesGroupTable): after any history in which no hole holds two data sets of one name, each hole appears once, in the "
+    "order of its association entry, with as many rows as it has depths/intervals; row i lists entry i of what the API reads "
+    "for each requested data set of that hole and the no-data value where it has none or fewer (block_entry, "
+    "table_after_history, holes_nodup, mem_holes_iff), and the association column is the stored association array itself "
+    "(sorted_slices_eq_data, table_assoc_column). The models are tied to the code by replaying every real "
+    "update_array_attribute call of random API histories on the model and comparing rows+data after each call, by comparing "
+    "the real depth_table / depth_table_by_name (arbitrary column selections and orders) with the model's table after every "
+    "operation, by Lean's tiledCheck judging the raw file rows at every close, and by comparing API reads and table blocks "
+    "with the abstract map. Attribute records (model M2c of attributes_keys / the Attributes list): under any sequence of "
+    "record updates and removals the two parallel lists stay aligned and duplicate-free and read like a finite map identifier -> "
+    "last record, so an identifier is listed iff its entity is live - exactly one record per live hole, data set and property "
+    "group (Records.refines_map, records_exact); every real update_concatenated_attributes / remove_entity call is replayed on "
+    "the model and the key and record lists compared after each. Partial: the 'Property:<name>' entries of a hole's record and "
+    "depth collocation are exercised by the oracle only."
 )
 LEVEL_NOTE = (
     "Trusted: Lean kernel; harness wrapper/canonicalisation; NumPy/h5py. Modelled not verified: float32 narrowing, "
-    "u4 overflow, labels colliding with object fields; gaps ('no gap' direction of exact tiling) follow from total+disjoint "
-    "only informally (tiled_no_overlap is proved, the counting argument for no-gap is not)."
+    "u4 overflow, labels colliding with object fields, NumPy's tie-break among index rows with equal start (such rows "
+    "contribute no table row); interval tables are compared with the model but have no reference oracle."
 )
-TECHNIQUE = "Lean 4 invariant + refinement proof (Tiled, refines_map) with trace-replay correspondence against the real Concatenator"
+TECHNIQUE = "Lean 4 invariant + refinement proof (Tiled, refines_map, counting argument for exact tiling, table view as a function of the abstract map) with trace-replay and table correspondence against the real Concatenator / DrillholesGroupTable"
